@@ -560,7 +560,7 @@ func (in *esInterp) exec(w []string) string {
 			switch {
 			case strings.Contains(m.Message, "wasn't produced from current scenario"):
 				res = "rejected:notScenario"
-			case strings.Contains(m.Message, "Table management action cell") || strings.Contains(m.Message, "misses mandatory"):
+			case strings.Contains(m.Message, "Table management action cell") || strings.Contains(m.Message, "misses mandatory") || strings.Contains(m.Message, "misses the mandatory"):
 				res = "rejected:invalid"
 			default:
 				res = "rejected:csv"
@@ -1248,21 +1248,21 @@ func suiteEngineSummaries(c *Ctx) {
 		lines := readLines(c.Replay)
 		if len(lines) > 0 && !strings.HasPrefix(lines[0], "variant ") {
 			// a replay file holds one case (from its `dataset` line on): the variant comes from the suite's argument
-			in.do(fmt.Sprintf("variant %s %s %s", b2s(in.variantBit(0)), b2s(in.variantBit(1)), b2s(in.variantBit(2))))
+			in.do(fmt.Sprintf("variant %s %s %s %s", b2s(in.variantBit(0)), b2s(in.variantBit(1)), b2s(in.variantBit(2)), b2s(in.variantBit(3))))
 		}
 		for _, l := range lines {
 			if strings.HasPrefix(l, "#") {
 				continue
 			}
-			if w := strings.Fields(l); len(w) == 4 && w[0] == "variant" {
-				in.variant = w[1] + w[2] + w[3]
+			if w := strings.Fields(l); len(w) >= 4 && w[0] == "variant" {
+				in.variant = strings.Join(w[1:], "")
 			}
 			in.do(l)
 		}
 		return
 	}
 	g := &esGen{in: in, r: c.Rng.Fork()}
-	in.do(fmt.Sprintf("variant %s %s %s", b2s(in.variantBit(0)), b2s(in.variantBit(1)), b2s(in.variantBit(2))))
+	in.do(fmt.Sprintf("variant %s %s %s %s", b2s(in.variantBit(0)), b2s(in.variantBit(1)), b2s(in.variantBit(2)), b2s(in.variantBit(3))))
 
 	if c.Shard == 0 {
 		g.fmtvStream()
